@@ -2,9 +2,11 @@ SPECIFICATION Spec
 CONSTANTS
   Users = {1, 2}
   MaxT = 3
-  MaxOps = 10
+  MaxOps = 8
   Renewals = {TRUE, FALSE}
   SessLens = {"short", "long"}
+  Forms = {"none", "token", "bearer", "phc", "basic", "jwt"}
+  Mgmt = {"token", "user", "session"}
 PROPERTIES OnlyCurrentAuthenticates SessionStillUnexpired NeverForInactiveUser UnknownNeverHeld CurrentIsHeld CurrentAuthenticates TokenGoodIffActiveAtBegin
 VIEW View
 CHECK_DEADLOCK FALSE
